@@ -2489,6 +2489,13 @@ func (c *Core) RegisterAuth(ctx context.Context, tokenTTL time.Duration, path st
 		return nil, ErrInternalError
 	}
 
+	// Batch tokens are not persisted, a use count cannot be enforced. The
+	// auth method's own check does not see a token type forced by the mount's
+	// token_type tuning.
+	if te.Type == logical.TokenTypeBatch && te.NumUses != 0 {
+		return nil, errors.New("batch tokens cannot have a limited use count")
+	}
+
 	if c.standby.Load() && persistToken {
 		return nil, logical.ErrPerfStandbyPleaseForward
 	}
